@@ -98,23 +98,23 @@ for _pid, _names in NONVACUITY.items():
 
 # scenario streams: (stream name, number of scenarios quick, thorough)
 STREAMS = {
-    "C02": [("shocked", 14, 200), ("shortage", 10, 150), ("multi", 8, 100), ("mild", 6, 80), ("crash", 4, 60), ("earlydt", 8, 80)],
+    "C02": [("shocked", 14, 200), ("shortage", 10, 150), ("multi", 8, 100), ("mild", 6, 80), ("crash", 4, 60), ("earlydt", 8, 80), ("large", 2, 12)],
     "C19": [("early", 16, 160), ("multi", 8, 80), ("negfd", 6, 40), ("earlydt", 8, 80)],
     "C09": [("recover", 36, 400), ("multi", 8, 100), ("earlydt", 8, 80)],
     "C10": [("multi", 20, 200), ("recover", 10, 100), ("rebuild", 10, 100), ("earlydt", 8, 80)],
-    "C11": [("multi", 26, 300), ("rebuild", 8, 100), ("finishing", 8, 80)],
+    "C11": [("multi", 26, 300), ("rebuild", 8, 100), ("finishing", 8, 80), ("large", 2, 12)],
     "C20": [("shocked", 10, 100), ("shortage", 6, 80), ("crash", 8, 80), ("multi", 6, 80), ("eventfree", 4, 60), ("excess", 8, 40),
-            ("earlydt", 8, 60), ("finishing", 4, 40), ("blackout", 6, 60), ("starve", 6, 40), ("sudden", 4, 40), ("fastrebuild", 5, 40)],
+            ("earlydt", 8, 60), ("finishing", 4, 40), ("blackout", 6, 60), ("starve", 6, 40), ("sudden", 4, 40), ("fastrebuild", 5, 40), ("large", 2, 12)],
     "C01": [("eventfree", 40, 400)],
-    "C08": [("rebuild", 26, 300), ("multi", 10, 100), ("earlydt", 8, 80), ("finishing", 6, 60), ("fastrebuild", 4, 40)],
+    "C08": [("rebuild", 26, 300), ("multi", 10, 100), ("earlydt", 8, 80), ("finishing", 6, 60), ("fastrebuild", 4, 40), ("large", 2, 12)],
     "C13": [("units", 24, 200)],
     "C18": [("shocked", 12, 120), ("shortage", 6, 60), ("eventfree", 6, 60)],
-    "C03": [("shortage", 18, 300), ("shocked", 12, 200), ("multi", 8, 80), ("finishing", 8, 80)],
-    "C04": [("shocked", 20, 300), ("shortage", 12, 200), ("multi", 8, 100), ("rebuild", 6, 80), ("finishing", 8, 80)],
-    "C05": [("shocked", 10, 200), ("shortage", 8, 150), ("crash", 8, 150), ("starve", 8, 60), ("mild", 6, 100), ("sudden", 8, 80)],
-    "C06": [("shocked", 16, 300), ("shortage", 12, 200), ("mild", 14, 200), ("blackout", 4, 40)],
-    "C07": [("shocked", 30, 400), ("excess", 10, 100)],
-    "C14": [("shocked", 20, 300), ("shortage", 16, 200), ("earlydt", 10, 100)],
+    "C03": [("shortage", 18, 300), ("shocked", 12, 200), ("multi", 8, 80), ("finishing", 8, 80), ("large", 2, 12)],
+    "C04": [("shocked", 20, 300), ("shortage", 12, 200), ("multi", 8, 100), ("rebuild", 6, 80), ("finishing", 8, 80), ("large", 2, 12)],
+    "C05": [("shocked", 10, 200), ("shortage", 8, 150), ("crash", 8, 150), ("starve", 8, 60), ("mild", 6, 100), ("sudden", 8, 80), ("large", 2, 12)],
+    "C06": [("shocked", 16, 300), ("shortage", 12, 200), ("mild", 14, 200), ("blackout", 4, 40), ("large", 2, 12)],
+    "C07": [("shocked", 30, 400), ("excess", 10, 100), ("large", 2, 12)],
+    "C14": [("shocked", 20, 300), ("shortage", 16, 200), ("earlydt", 10, 100), ("large", 2, 12)],
 }
 
 # phases whose correspondence obligations can fail this property's check
